@@ -23,13 +23,17 @@ def jobs_for(tier, only=None):
     vlen = 128 if tier == 'quick' else 1500      # acf-vss / cvf: bound on the received length
     jobs = []
 
-    def add(name, src, unwindset, unwind=12, defines=(), timeout=1500, meta=None, nondet_static=False, loop_policy=None):
+    HEAVY = ('acf-can-listener', 'cvf-listener', 'acf-vss-listener')
+
+    def add(name, src, unwindset, unwind=12, defines=(), timeout=1500, meta=None, nondet_static=False, loop_policy=None, **_):
         if only and not any(o in name for o in only.split(',')):
             return
+        if tier == 'quick' and 'scaled' not in name and name.startswith(HEAVY):
+            return      # real-size buffers of these three listeners: thorough tier (minutes, tens of GB)
         us = dict(US)
         us.update(unwindset)
         jobs.append(Job('c18.' + name, src, LIB, incs=['examples'], unwind=unwind, unwindset=us,
-                        defines=list(defines), timeout=timeout, backend='cadical', mem_gb=(24 if (tier == 'thorough' or 'cvf' in name or 'acf-vss' in name) else 12),
+                        defines=list(defines), timeout=timeout, backend='cadical', mem_gb=(12 if 'scaled' in name else (24 if (tier == 'thorough' or 'cvf' in name or 'acf-vss' in name) else 12)),
                         nondet_static=nondet_static, loop_policy=loop_policy,
                         meta=dict({'datagrams': ndg, 'received_length': '0..%s (arbitrary content; the 1500-byte buffer tail is arbitrary too)' % (defines and defines[0].split('=')[1] or 1500)}, **(meta or {}))))
 
@@ -56,6 +60,31 @@ def jobs_for(tier, only=None):
     add('aaf-listener', L.packet_fn_listener('aaf/aaf-listener.c', 'aaf-listener', 'new_packet(3, 5)', ndg,
                                              ['STAILQ_INIT(&samples);', 'expected_seq = vp_g.st[0];']),
         {'harness.0': ndg + 1}, defines=['VP_LEN_MAX=1500'])
+    # ---- scaled model: the guarded hook shrinks the receive buffer, so that EVERY received length up to the
+    # buffer size (the end-of-buffer cases) is covered by one cheap query
+    def scaled(name, src, size, unwindset, extra_defs=(), **kw):
+        add(name + '.scaled%d.dg%d' % (size, ndg_s), src, dict(unwindset, **{'recv.0': size + 2, 'write.0': size + 80,
+                                                              'present_data.0': size + 2}),
+            defines=['VP_LEN_MAX=%d' % size, 'VP_DG_MAX=%d' % size] + list(extra_defs),
+            meta={'scaled_receive_buffer': size, 'hook': 'COVESA_OPEN1722_VERIF_MAX_PDU_SIZE / _DATA_LEN'}, **kw)
+    for ndg_s in (1, 2):
+        for udp in (0, 1):
+            for fd in (0, 1):
+                scaled('acf-can-listener.%s.%s' % ('udp' if udp else 'raw', 'fd' if fd else 'classic'),
+                       L.acf_can_listener(ndg_s, (udp, fd)), 112, {'new_packet.0': 112 // 16 + 2, 'harness.0': ndg_s + 1},
+                       ['COVESA_OPEN1722_VERIF_MAX_PDU_SIZE=112'])
+        for udp in (0, 1):
+            scaled('hello-world-listener.%s' % ('udp' if udp else 'raw'),
+                   L.main_loop_listener('hello-world/hello-world-listener.c', 'hello-world-listener', ndg_s, ['use_udp = %d;' % udp]),
+                   72, {'listener_main.0': ndg_s + 2, 'printf.0': 120, 'printf.1': 120, 'printf.2': 120},
+                   ['COVESA_OPEN1722_VERIF_MAX_PDU_SIZE=72'])
+            scaled('acf-vss-listener.%s' % ('udp' if udp else 'raw'),
+                   L.main_loop_listener('acf-vss/acf-vss-listener.c', 'acf-vss-listener', ndg_s, ['use_udp = %d;' % udp]),
+                   72, {'listener_main.0': ndg_s + 2, 'printf.0': 120, 'printf.1': 120, 'printf.2': 120},
+                   ['COVESA_OPEN1722_VERIF_MAX_PDU_SIZE=72'], loop_policy=c07.codec_loop_policy('float', 2))
+        scaled('cvf-listener', L.packet_fn_listener('cvf/cvf-listener.c', 'cvf-listener', 'new_packet(3, 5)', ndg_s,
+                                                    ['STAILQ_INIT(&nals);', 'expected_seq = vp_g.st[0];']),
+               60, {'harness.0': ndg_s + 1}, ['COVESA_OPEN1722_VERIF_DATA_LEN=32'])
     crf_pre = ['STAILQ_INIT(&mclk_timestamps);', 'crf_seq_num = vp_g.st[0]; aaf_seq_num = vp_g.st[1];',
                'prev_state = vp_g.st[2] & 1; need_mclk_lookup = vp_g.st[3] & 1; first_aaf_pdu = vp_g.st[4] & 1;',
                'memcpy(&prev_mclk_timestamp, &vp_g.st[5], 8);']
@@ -103,6 +132,7 @@ def run(tier, only=None):
         'acf-can-listener: received length bounded to 96 (quick) / 160 (thorough) bytes, i.e. up to 5 / 9 ACF '
         'messages per datagram (each consumes >= 16 bytes); longer datagrams are outside the explicit claim - the '
         'per-message code is the same; acf-vss-listener and cvf-listener: received length bounded to 128 / 160 bytes in the quick tier (symbolic-size copies and string scans over 1500 bytes exhaust memory), any length 0..1500 in the thorough tier; hello-world, aaf, crf: any length 0..1500',
+        'scaled runs: with the guarded hook COVESA_OPEN1722_VERIF_MAX_PDU_SIZE / _DATA_LEN the receive buffer of acf-can / hello-world / acf-vss / cvf is shrunk to 112 / 72 / 72 / 60 bytes and EVERY received length up to the buffer size is covered (end-of-buffer cases); the unscaled runs use the real 1500-byte buffer with the bounds above',
         'reading stale (uninitialised) buffer bytes beyond the received length is tolerated (not an out-of-bounds '
         'access); reading beyond the buffer object is not']
     return chk.finish(
